@@ -213,7 +213,7 @@ def _tie(rng, m, a, b, name, kind, wrappers):
         m.calls.append(name + '(%s)')
         m.funcs[name] = True
     else:
-        w = wrappers.pop()
+        w = wrappers.pop() if wrappers else 'dispatch'
         p = rng.choice(PARAM_POOL)
         if kind == 'tie-if':
             head = ['    if %s > %d:' % (p, rng.randint(1, 4)), '        from %s import %s' % (a.dotted, name),
